@@ -193,7 +193,11 @@ def multitask_routing(ctx):
         other = 1 - src
         before_other = [mt.buffers[other].priority.priority[k] for k in range(2)]
         vals = [sym_real(f"v{k}", 0, None, lo_open=True) for k in range(2)]
-        mt.update_priority(_arr(ctx, vals))
+        try:
+            mt.update_priority(_arr(ctx, vals))
+        except Exception as ex:
+            ctx.log.append(f"update_priority raised {type(ex).__name__}: {ex}")
+            ctx.check(False, "multi-task:update-routed-to-the-task-that-produced-the-last-batch")
         for k in range(2):
             ctx.check(mt.buffers[other].priority.priority[k] == before_other[k], "multi-task:update-does-not-touch-other-tasks")
         ref = {}
